@@ -72,4 +72,16 @@ META = {
         "hash-independent reference values (fresh engine / twin / brute-force joint).",
         ["same_question_twice", "bad_question_refused"],
     ),
+    "C02": _m(
+        "one evaluation = one simulated run: a connected world of one of four kinds (Bayesian network 36%, Markov network 27% with optional "
+        "triangulate(H1..H6, inplace) first, factor graph 18%, junction tree built by the simulator with permuted clique tuples / edge order / "
+        "potential scopes 18%), <=6 variables (7 thorough), realised in PRNG-chosen insertion orders under the worker's hash seed; 2..7 steps from "
+        "{calibrate, max_calibrate, query(joint both ways, evidence by state name, virtual evidence on BNs)} on a shared or per-step engine.  Clique and "
+        "sepset beliefs are compared (proportionally) with the marginals / max-marginals of the brute-force joint, adjacent cliques with their sepset, "
+        "query answers with the exact conditional.  Non-trivial = at least one checked step; distinct = distinct trace digest; the observed clique "
+        "layout (cliques + tree edges in logical names) is the order signature.",
+        "faults: relabel / insertion_permute (hash-order scheduler), triangulation heuristic knob (option_swarm), virtual_evidence_rebind; half of the "
+        "runs reuse one engine for all steps",
+        ["multi_clique_tree", "evidence_in_several_cliques"],
+    ),
 }
